@@ -447,11 +447,11 @@ pub fn mutate(seed: u64, out: &str) {
                     let u = guard(|| match v {
                         Tagged::Dual(d) => { let _ = d + d; let _ = d * d; true }
                         Tagged::Dual2(d) => { let _ = d + d; let _ = d * d; true }
-                        Tagged::PPSplineF64(s) => { let sp = verif::ppspline_f64_inner(s); if sp.c().is_some() { let _ = sp.ppdnev_single(&sp.t()[0], 0); } true }
-                        Tagged::PPSplineDual(s) => { let sp = verif::ppspline_dual_inner(s); if sp.c().is_some() { let _ = sp.ppdnev_single(&sp.t()[0], 0); } true }
-                        Tagged::PPSplineDual2(s) => { let sp = verif::ppspline_dual2_inner(s); if sp.c().is_some() { let _ = sp.ppdnev_single(&sp.t()[0], 0); } true }
+                        Tagged::PPSplineF64(s) => { let sp = verif::ppspline_f64_inner(s); if sp.c().as_ref().map(|c| c.len() == *sp.n()).unwrap_or(false) { let _ = sp.ppdnev_single(&sp.t()[0], 0); } true }
+                        Tagged::PPSplineDual(s) => { let sp = verif::ppspline_dual_inner(s); if sp.c().as_ref().map(|c| c.len() == *sp.n()).unwrap_or(false) { let _ = sp.ppdnev_single(&sp.t()[0], 0); } true }
+                        Tagged::PPSplineDual2(s) => { let sp = verif::ppspline_dual2_inner(s); if sp.c().as_ref().map(|c| c.len() == *sp.n()).unwrap_or(false) { let _ = sp.ppdnev_single(&sp.t()[0], 0); } true }
                         Tagged::FXRates(f) => { let c = verif::fxrates_currencies(f); let a = Ccy::try_new(&c[0]); a.is_ok() }
-                        Tagged::Curve(c) => { let n = c.nodes(); n.len() >= 1 }
+                        Tagged::Curve(c) => { let _ = c.nodes(); true }
                         _ => true,
                     });
                     ("ok", shape_tagged(v), matches!(u, Outcome::Ok(true)))
